@@ -155,7 +155,7 @@ def mutations(kws, *, evaluate=False, rich=False):
                 d[j] += delta
                 if d[j] >= 0:
                     out.append((f"dim:{name}:{j}:{delta:+d}", [], _replace(kws, name, _tensor(spec, dims=d))))
-            if rich:
+            if True:  # a dimension of size 0 against a non-zero one (falsy sizes), every position, every argument
                 d = list(dims)
                 d[j] = 0
                 out.append((f"dim0:{name}:{j}", [], _replace(kws, name, _tensor(spec, dims=d))))
